@@ -39,6 +39,16 @@ func (v *VerifCommitment) Match(id ServerID, idx uint64)      { v.c.match(id, id
 func (v *VerifCommitment) SetConfiguration(c Configuration) { v.c.setConfiguration(c) }
 func (v *VerifCommitment) CommitIndex() uint64               { return v.c.getCommitIndex() }
 
+// VerifNotified reports (and clears) whether the commit channel was signalled.
+func (v *VerifCommitment) VerifNotified() bool {
+	select {
+	case <-v.ch:
+		return true
+	default:
+		return false
+	}
+}
+
 // VerifCompactLogsWithTrailing runs the compaction arithmetic against the given store.
 func VerifCompactLogsWithTrailing(conf *Config, logs LogStore, snapIdx, lastLogIdx, trailing uint64) error {
 	r := &Raft{logs: logs, logger: conf.getOrCreateLogger()}
